@@ -920,3 +920,35 @@ impl DirtyDb {
         Ok(())
     }
 }
+
+// ---------------------------------------------------------------------------------------------------------------
+// C08 witnesses: silent narrowing on the write side
+// ---------------------------------------------------------------------------------------------------------------
+pub fn narrow_len_bad(names: &[String], out: &mut Vec<u8>) {
+    out.push(names.len() as u8);
+    for n in names {
+        out.extend_from_slice(n.as_bytes());
+    }
+}
+
+pub fn narrow_len_guarded_ok(name: &str, out: &mut Vec<u8>) -> bool {
+    if name.len() <= 255 {
+        out.push(name.len() as u8);
+        out.extend_from_slice(name.as_bytes());
+        true
+    } else {
+        false
+    }
+}
+
+pub fn narrow_len_min_ok(name: &str, out: &mut Vec<u8>) {
+    let n = name.len().min(255);
+    out.push(n as u8);
+    out.extend_from_slice(&name.as_bytes()[..n]);
+}
+
+pub fn narrow_emit_bytes_ok(v: u64, out: &mut Vec<u8>) {
+    let bytes = [(v >> 16) as u8, (v >> 8) as u8, v as u8];
+    out.extend_from_slice(&bytes);
+    out.push((v & 0xff) as u8);
+}
